@@ -498,7 +498,11 @@ func SetItemCollectionMetrics(client FakeClient, itemCollectionMetrics map[strin
 
 // BatchWriteItem mock response for dynamodb
 func (fd *Client) BatchWriteItem(ctx context.Context, input *dynamodb.BatchWriteItemInput, opts ...func(*dynamodb.Options)) (*dynamodb.BatchWriteItemOutput, error) {
-	if ferr := fd.failureErr(); ferr != nil {
+	// the whole batch is one atomic step: the lock is held from the failure check to the last write
+	fd.mu.Lock()
+	defer fd.mu.Unlock()
+
+	if ferr := fd.forceFailureErr; ferr != nil {
 		// nothing is applied while a failure is emulated: every request is unprocessed, or the call fails
 		unprocessed := map[string][]types.WriteRequest{}
 
@@ -512,17 +516,13 @@ func (fd *Client) BatchWriteItem(ctx context.Context, input *dynamodb.BatchWrite
 
 		return &dynamodb.BatchWriteItemOutput{
 			UnprocessedItems:      unprocessed,
-			ItemCollectionMetrics: fd.getItemCollectionMetrics(),
+			ItemCollectionMetrics: fd.itemCollectionMetrics,
 		}, nil
 	}
 
 	if err := validateBatchWriteItemInput(input); err != nil {
 		return &dynamodb.BatchWriteItemOutput{}, err
 	}
-
-	// the whole batch is one atomic step: the lock is held from the validation to the last write
-	fd.mu.Lock()
-	defer fd.mu.Unlock()
 
 	if err := fd.validateBatchWriteRequests(input); err != nil {
 		return &dynamodb.BatchWriteItemOutput{}, err
